@@ -40,6 +40,11 @@ GROUP = {"01": ["C03", "C07"], "02": ["C01", "C02", "C15"], "03": ["C01", "C02",
          "05": ["C02", "C01"], "06": ["C04", "C02", "C12"], "07": ["C04", "C01", "C12", "C17", "C07", "C06", "C08"], "08": ["C08", "C15"],
          "09": ["C07"], "10": ["C06", "C13", "C08"], "11": ["C06", "C14", "C16", "C02"], "12": ["C06", "C13", "C20"], "13": ["C14", "C01"],
          "14": ["C20", "C08"], "15": ["C18", "C08"], "16": ["C05", "C09", "C06"], "17": ["C19"], "18": ["C08", "C16"]}
+# extract-method refactors that move an anchored effect (not a predicate) into a new helper: the rules do not
+# follow the effect into the helper and report the obligation as not provable (DESIGN.md section 15)
+EXTRACT = "documented false alarm: the anchored effect was moved into a new helper method; the rule does not inline helpers that carry effects (DESIGN.md section 15)"
+KNOWN_FALSE_ALARMS = {"d-a2-01-voteset-record-first-maj23": EXTRACT, "d-a2-02-heightvoteset-add-catchup-round": EXTRACT,
+                      "d-a2-03-state-addvote-unlock-if-pol": EXTRACT, "d-a2-07-privvalidator-save-signed": EXTRACT}
 for f in sorted(glob.glob(os.path.join(V, "mutants", "benign", "*.diff"))):
     b = os.path.basename(f)[:-5]
     parts = b.split("-")
@@ -49,7 +54,10 @@ for f in sorted(glob.glob(os.path.join(V, "mutants", "benign", "*.diff"))):
         props = GROUP.get(parts[1], ["all"])
     else:
         props = ["all"]  # second batch: every property's rules, in `selftest` only
-    out.append({"id": "benign-" + b, "patch": os.path.relpath(f, V), "properties": props, "expect": "silent",
-                "what": "behaviour-preserving refactor: the check must stay silent"})
+    m = {"id": "benign-" + b, "patch": os.path.relpath(f, V), "properties": props, "expect": "silent",
+         "what": "behaviour-preserving refactor: the check must stay silent"}
+    if b in KNOWN_FALSE_ALARMS:
+        m["known_gap"] = KNOWN_FALSE_ALARMS[b]
+    out.append(m)
 json.dump(out, open(os.path.join(V, "mutants", "index.json"), "w"), indent=1)
 print(len(out), "mutants")
